@@ -3,10 +3,11 @@
    The models mirror lib/allocators after the repairs 484ce8f (arena/stack overflow test, arena
    alloc(0)), 961d315 (pool deallocall), 942c78c (heap size overflow), b8d094a (heap realloc-shrink
    coalescing), 942989e (span count overflow), 532034f (aligned request overflow), 9ef0717 (heap
-   deallocall clears the used marks): the statements are the full-strength ones, over ALL histories
-   with sizes anywhere in 0 .. 2^64-1, with one [_refuted]/[_partial] pair left (the pointer just past
-   the heap's end node is accepted by dealloc, open finding).  The only hypotheses are the [*cfg_ok]
-   facts about the buffer (a real object that does not wrap the address space). *)
+   deallocall clears the used marks), d9328b9 (heap get_ptr_node refuses the end node): every
+   statement is the full-strength one, over ALL histories with sizes anywhere in 0 .. 2^64-1.  The
+   only hypotheses are the [*cfg_ok] facts about the buffer (a real object that does not wrap the
+   address space; for the heap also room for two nodes - the code's own, weaker check is refuted in
+   C11_heap_mem_safe_code_check_refuted, open finding). *)
 From Coq Require Import ZArith List Bool Permutation.
 From Base Require Import LuaInt.
 From C11 Require Import Gen Model Heap HeapA Spec SpecHeap ProofsArena ProofsStack ProofsPool ProofsHeap ProofsHeapNaf ProofsHeapBytes RefineHeap RefineTop Iface ProofsIface Aligned ProofsAligned.
@@ -140,29 +141,54 @@ Theorem C11_heap_mem_safe : forall c ops, hcfg_ok c -> Forall hop_usize ops ->
 Proof. exact heap_mem_safe_proof. Qed.
 Print Assumptions C11_heap_mem_safe.
 
-(* "reports an invalid free instead of corrupting itself", on the memory-level model.
+(* "reports an invalid free instead of corrupting itself", on the memory-level model, full strength.
    The refinement carries a mark invariant (Rep.rp_marks): the used mark next = 1 / prev = NODE_COOKIE
    is found at no 16-aligned address other than the chunk headers and the end node - nothing the
    allocator leaves behind in a payload (absorbed headers, old bin links, the previous generation
-   after deallocall, repair 9ef0717) looks like an allocated chunk.  Hence: after ANY history, dealloc
-   of ANY non-nil pointer that is not a live block panics - double frees, pointers of a previous
-   generation, pointers into payloads or outside the buffer - with ONE exception, the address just
-   past the end node of an initialised heap (one past the end of the region). *)
-Theorem C11_heap_mem_invalid_free_reported_partial : forall c ops s live p,
+   after deallocall, repair 9ef0717) looks like an allocated chunk - and the end node is refused for
+   its size 0 (repair d9328b9).  Hence: after ANY history, initialised or not, dealloc of ANY
+   non-nil pointer that is not a live block panics - double frees, pointers of a previous generation,
+   pointers into payloads, outside the buffer, one past its end. *)
+Theorem C11_heap_mem_invalid_free_reported : forall c ops s live p,
   hcfg_ok c -> Forall hop_usize ops ->
   crun c (heap_init_state, []) ops = Some (s, live) ->
   0 < p < two64 -> ~ In p (map b_addr live) ->
-  (h_initialized s = true -> p <> heap_end c + NODE) ->
   hp_dealloc s p = HPanic.
 Proof. exact heap_mem_invalid_free_reported_proof. Qed.
-Print Assumptions C11_heap_mem_invalid_free_reported_partial.
+Print Assumptions C11_heap_mem_invalid_free_reported.
 
-(* the exception is real (known finding): the end node is marked used like an allocated chunk, so
-   the full-strength statement (no exception) is false - HeapAllocator(200) whose end node is
-   16-aligned accepts dealloc(buffer + 200) after alloc(8) *)
-Theorem C11_heap_mem_invalid_free_reported_refuted : ~ heap_mem_invalid_free_reported_full.
-Proof. exact heap_mem_invalid_free_reported_refuted_proof. Qed.
-Print Assumptions C11_heap_mem_invalid_free_reported_refuted.
+(* the statement of SpecHeap.v that was refuted twice before the repairs 9ef0717 and d9328b9 *)
+Theorem C11_heap_mem_invalid_free_reported_full : heap_mem_invalid_free_reported_full.
+Proof. exact heap_mem_invalid_free_reported_full_proof. Qed.
+Print Assumptions C11_heap_mem_invalid_free_reported_full.
+
+(* realloc runs the same pointer test *)
+Theorem C11_heap_mem_invalid_realloc_reported : forall c ops s live p n old,
+  hcfg_ok c -> Forall hop_usize ops ->
+  crun c (heap_init_state, []) ops = Some (s, live) -> h_initialized s = true ->
+  0 < p < two64 -> ~ In p (map b_addr live) -> n <> old ->
+  hp_realloc c s p n old = HPanic.
+Proof. exact heap_mem_invalid_realloc_reported_proof. Qed.
+Print Assumptions C11_heap_mem_invalid_realloc_reported.
+
+(* hcfg_ok demands room for two nodes (2*NODE + ALLOC_ALIGN <= size).  The code's own check in
+   add_memory_region demands room for one: under that weaker hypothesis the statement of
+   C11_heap_mem_safe is false (open finding) - HeapAllocator(48):alloc(100) returns a 100-byte block *)
+Theorem C11_heap_mem_safe_code_check_refuted : ~ heap_mem_safe_code_check_full.
+Proof. exact heap_mem_safe_code_check_refuted_proof. Qed.
+Print Assumptions C11_heap_mem_safe_code_check_refuted.
+
+(* the memory of Heap.v maps addresses to 64-bit words; it is an exact picture of a byte-addressed
+   memory as long as no two words that are accessed overlap.  When the end node is 8-aligned every
+   word the model ever writes is 8-aligned: every other address still holds the initial 0.
+   (Without the hypothesis - HeapAllocator(SIZE) with SIZE not a multiple of 8 - the real end node is
+   accessed misaligned, which is an open finding of its own.) *)
+Theorem C11_heap_mem_writes_aligned : forall c ops s live,
+  hcfg_ok c -> Forall hop_usize ops -> heap_end c mod 8 = 0 ->
+  crun c (heap_init_state, []) ops = Some (s, live) ->
+  forall w, w mod 8 <> 0 -> mget (h_mem s) w = 0.
+Proof. exact heap_mem_writes_aligned_proof. Qed.
+Print Assumptions C11_heap_mem_writes_aligned.
 
 (* the allocator's own writes never land in a live payload (memory level): after any history, every
    operation - alloc, dealloc, realloc in place or moving, deallocall, lazy initialisation included -
